@@ -68,8 +68,12 @@ def check_who(ctx, rid, found, allowed, what, floor=None):
                detail={'allowed': sorted(allowed)} if not ok else None, desc='%s from %s' % (what, fname))
 
 
+THOROUGH = [False]      # set by check.py: the thorough tier evaluates path rules on every instantiation, not one per pattern
+
+
 def traces_of(db, name, depth=0, inline=None, exc=None, lambdas=False, per_instance=True, limit=20000, need=1, maxvisit=2):
     """[(fn, [traces])] for all instances of function `name`"""
+    per_instance = per_instance or THOROUGH[0]
     T = Tracer(db, depth=depth, inline_filter=inline, exc_edges=exc, limit=limit, maxvisit=maxvisit)
     out = []
     fns = db.fns(name, lambdas=lambdas)
